@@ -652,6 +652,41 @@ pub fn main(args: &Args) {
             }
             cases.push(c);
         }
+        // line endings other than "\n": the library normalises them for every entry point, so path, stdin and library
+        // must still agree (bare "\r" and a comment line of exactly max_line_length before "\r\n" are where a missing
+        // normalisation shows)
+        let mut rng3 = Rng::new(args.seed ^ 0xC18C);
+        let pad = |c: &str| format!("{}{}", c, "x".repeat(80usize.saturating_sub(c.len())));
+        cases.push(Case::new("ansi", vec![format!("{}\r\nSELECT 1\r\n", pad("SELECT a FROM t -- "))], "core", false, 0, "line-endings"));
+        cases.push(Case::new("ansi", vec![s("SELECT a\rFROM t\r")], "core", false, 0, "line-endings"));
+        cases.push(Case::new("ansi", vec![s("SELECT a  FROM t\r\n"), s("SELECT a\rFROM t\r")], "all", true, 1, "line-endings"));
+        for _ in 0..(n / 6) {
+            let mut files = vec![];
+            for _ in 0..rng3.range(1, 2) {
+                let mut t = String::new();
+                for _ in 0..rng3.range(1, 3) {
+                    let pool = match rng3.below(10) {
+                        0..=3 => FIXABLE,
+                        4..=5 => UNFIXABLE,
+                        6..=8 => CLEAN,
+                        _ => JUNK,
+                    };
+                    let stmt = pool[rng3.below(pool.len())];
+                    if rng3.chance(1, 4) && !stmt.contains("--") && stmt.len() < 60 {
+                        t.push_str(&pad(&format!("{} -- ", stmt.trim_end_matches('\n'))));
+                    } else {
+                        t.push_str(stmt.trim_end_matches('\n'));
+                    }
+                    t.push('\n');
+                }
+                let eol = ["\r\n", "\r", "\r\n", "\n\r"][rng3.below(4)];
+                files.push(if rng3.chance(1, 5) { t.replacen('\n', eol, 1) } else { t.replace('\n', eol) });
+            }
+            let rules = RULESETS[rng3.below(RULESETS.len())];
+            let mut c = Case::new("ansi", files, rules, rng3.chance(1, 2), if rng3.chance(1, 2) { 0 } else { 1 }, "line-endings");
+            c.nocolor = rng3.chance(1, 3);
+            cases.push(c);
+        }
     }
     let items: Vec<(usize, Case)> = cases.into_iter().enumerate().collect();
     par_run(&mut out, &items, || (), |_, (i, c), buf| {
